@@ -234,7 +234,15 @@ func main() {
 			continue
 		}
 		c := cs[len(cs)/2]
-		samples = append(samples, map[string]any{"id": c.ID, "signature": c.Sig.String(), "args": showArgs(c.Args), "script": c.script()})
+		if len(samples)%2 == 1 { // every other sample: a case whose arguments are script expressions
+			for _, x := range cs {
+				if x.Mode == "var" && !x.Try {
+					c = x
+					break
+				}
+			}
+		}
+		samples = append(samples, map[string]any{"id": c.ID, "signature": c.Sig.String(), "args": showArgs(c.Args), "mode": c.Mode, "script": c.script()})
 	}
 	nsig := map[string]int{}
 	for _, s := range sigs {
@@ -264,7 +272,7 @@ func main() {
 	e.Finish(lib.Coverage{
 		Evaluations:        evals,
 		DistinctNontrivial: len(distinct),
-		Rule:               "distinct (path, signature, argument tuple, preset result, try/no-try, passing mode) cases in which the Go body ran and its recorded arguments/result were compared, or the converter refused an argument, or the call panicked",
+		Rule:               "distinct (path, signature, argument tuple, preset result, try/no-try, passing mode) cases in which the Go body ran and its recorded arguments (and result) were compared with what the script passed (received), or an argument that must be refused was refused with a catchable error, or the call panicked; calls that merely ended in a tolerated error (sized kind unsupported by the reflective path, open kind mismatch) are not counted",
 		Samples:            samples,
 		Exhaustive:         false,
 	})
